@@ -465,6 +465,30 @@ def fee2(fr):
     return s
 
 
+def subsets_with_sum(idx, qty, target):
+    """All subsets (as tuples of indices) of idx whose quantities add up to target; quantities are positive, so the
+    search is cut as soon as a partial sum exceeds the target (far fewer nodes than 2^n for many small fills)."""
+    idx = sorted(idx, key=lambda i: -qty[i])
+    suffix = [0] * (len(idx) + 1)
+    for k in range(len(idx) - 1, -1, -1):
+        suffix[k] = suffix[k + 1] + qty[idx[k]]
+    out = []
+
+    def go(k, left, acc):
+        if left == 0:
+            if acc:
+                out.append(tuple(acc))
+            return
+        if k == len(idx) or left < 0 or suffix[k] < left or len(out) > 5000:
+            return
+        acc.append(idx[k])
+        go(k + 1, left - qty[idx[k]], acc)
+        acc.pop()
+        go(k + 1, left, acc)
+    go(0, target, [])
+    return out
+
+
 def feasible_assignment(benefits, trades):
     """Is there a way to give every benefit with sold shares a disjoint set of same-security sales traded within
     [date, date+5 days] whose quantities add up? (exhaustive search)"""
@@ -476,11 +500,9 @@ def feasible_assignment(benefits, trades):
         b = todo[bi]
         cands = [i for i in avail if trades[i]["sym"] == b["sym"] and trades[i].get("act", "Sell") == "Sell"
                  and b["date"] <= trades[i]["td"] <= b["date"] + datetime.timedelta(days=5)]
-        for n in range(1, len(cands) + 1):
-            for combo in itertools.combinations(cands, n):
-                if sum(trades[i]["qty"] for i in combo) == b["sold"]:
-                    if rec(bi + 1, [i for i in avail if i not in combo]):
-                        return True
+        for combo in subsets_with_sum(cands, {i: trades[i]["qty"] for i in cands}, b["sold"]):
+            if rec(bi + 1, [i for i in avail if i not in combo]):
+                return True
         return False
     return rec(0, list(range(len(trades))))
 
@@ -567,14 +589,11 @@ def judge(sc, res):
                 continue
             cands = [i for i in avail_ if trades[i]["sym"] == b["sym"] and trades[i].get("act", "Sell") == "Sell"
                      and b["date"] <= trades[i]["td"] <= b["date"] + datetime.timedelta(days=5)]
-            for n in range(1, len(cands) + 1):
-                for combo in itertools.combinations(cands, n):
-                    if sum(trades[i]["qty"] for i in combo) != b["sold"]:
-                        continue
-                    if not any(trades[i]["td"].isoformat() == r["trade date"] and trades[i]["sd"].isoformat() == r["settlement date"] for i in combo):
-                        continue
-                    if rec(bi + 1, [i for i in avail_ if i not in combo], rows_left[:ri] + rows_left[ri + 1:]):
-                        return True
+            for combo in subsets_with_sum(cands, {i: trades[i]["qty"] for i in cands}, b["sold"]):
+                if not any(trades[i]["td"].isoformat() == r["trade date"] and trades[i]["sd"].isoformat() == r["settlement date"] for i in combo):
+                    continue
+                if rec(bi + 1, [i for i in avail_ if i not in combo], rows_left[:ri] + rows_left[ri + 1:]):
+                    return True
         return False
     if not rec(0, avail, stc):
         return {"what": "sell-to-cover sales cannot be explained by disjoint sets of confirmations traded within five days after their benefit "
@@ -631,7 +650,7 @@ def run(tier):
                 def n_combos(b):
                     cands = [t for t in sc["trades"] if t["sym"] == b["sym"] and t.get("act", "Sell") == "Sell"
                              and b["date"] <= t["td"] <= b["date"] + datetime.timedelta(days=5)]
-                    return sum(1 for n_ in range(1, len(cands) + 1) for c_ in itertools.combinations(cands, n_) if sum(t["qty"] for t in c_) == b["sold"])
+                    return len(subsets_with_sum(list(range(len(cands))), {i_: t_["qty"] for i_, t_ in enumerate(cands)}, b["sold"]))
                 # ... or some benefit has more than one combination of fills adding up to its sold shares (the matcher
                 # then picks by closeness to a price printed in cents and never revisits the choice)
                 other_ok = other_ok or any(n_combos(b) >= 2 for b in bs_)
